@@ -160,7 +160,10 @@ func zs(xs ...int) string {
 	for i, x := range xs {
 		parts[i] = vlib.Z(x)
 	}
-	return "[" + strings.Join(parts, ";") + "]"
+	if len(parts) == 0 {
+		return "[]"
+	}
+	return "[" + strings.Join(parts, ";") + "]%Z"
 }
 
 func (dp *dumper) elIndex(b *bo.BoxFields) int {
@@ -516,7 +519,41 @@ func (g *gen) realTable(sb *strings.Builder, depth int) {
 	sb.WriteString("</table>")
 }
 
+// a well-formed table with many spans: exercises the grid-slot assignment
+func genGridDoc(r *vlib.Rng) (string, []string) {
+	var sb strings.Builder
+	sb.WriteString(`<html><head><style></style></head><body><table>`)
+	if r.Chance(1, 3) {
+		sb.WriteString(`<colgroup span="2"></colgroup><col span="3"><colgroup><col><col span="2"></colgroup>`)
+	}
+	groups := r.Range(1, 4)
+	for g := 0; g < groups; g++ {
+		tag := vlib.Pick(r, []string{"tbody", "thead", "tfoot", "tbody"})
+		fmt.Fprintf(&sb, "<%s>", tag)
+		for i, rows := 0, r.Range(1, 5); i < rows; i++ {
+			sb.WriteString("<tr>")
+			for j, cells := 0, r.Range(0, 5); j < cells; j++ {
+				attrs := ""
+				if r.Chance(1, 2) {
+					attrs += fmt.Sprintf(` colspan="%d"`, r.Range(1, 4))
+				}
+				if r.Chance(1, 2) {
+					attrs += fmt.Sprintf(` rowspan="%d"`, vlib.Pick(r, []int{0, 1, 2, 2, 3, 3, 4, 7}))
+				}
+				fmt.Fprintf(&sb, "<td%s>x</td>", attrs)
+			}
+			sb.WriteString("</tr>")
+		}
+		fmt.Fprintf(&sb, "</%s>", tag)
+	}
+	sb.WriteString(`</table></body></html>`)
+	return sb.String(), []string{"grid-table"}
+}
+
 func genDoc(r *vlib.Rng) (string, []string) {
+	if r.Chance(1, 6) {
+		return genGridDoc(r)
+	}
 	g := &gen{r: r, max: r.Range(3, 30), tags: map[string]bool{}, tabley: r.Chance(1, 2)}
 	var body strings.Builder
 	bodyStyle := ""
@@ -597,7 +634,11 @@ func runDoc(src string, kind string, tags []string) (vlib.Case, bool) {
 	for i, h := range hidden {
 		hid[i] = vlib.Z(h)
 	}
-	coq := fmt.Sprintf("CTree %s [%s] %d %s", inTerm, strings.Join(hid, ";"), status, outTerm)
+	hidTerm := "[]"
+	if len(hid) > 0 {
+		hidTerm = "[" + strings.Join(hid, ";") + "]%Z"
+	}
+	coq := fmt.Sprintf("CTree %s %s %d %s", inTerm, hidTerm, status, outTerm)
 	return vlib.Case{Kind: kind, Coq: coq,
 		Desc:       map[string]interface{}{"html": src, "before": dpIn.desc.String(), "after": dpOut.desc.String(), "hidden_elements": hidden},
 		Tags:       tags,
